@@ -946,6 +946,22 @@ pub fn c08_case<const N: usize>(recipe: &Recipe, src: Src, script: Script) -> Ve
 
 pub fn c08_check<const N: usize>(o: &Opts, rep: &mut Report) {
     rep.notes.push(format!("N={} {}", N, calib::<N>().note));
+    if N == 0 && o.shard.0 == 0 {
+        // the protocol at capacities where position arithmetic exceeds the machine word (zero-sized elements)
+        let (probs, cases) = crate::c19::huge_iter_probes();
+        rep.transitions += cases;
+        rep.validated += cases;
+        rep.evaluations += cases;
+        rep.count("huge_capacity_iterator_cases", cases);
+        for p in probs {
+            let what = p.split(':').next().unwrap_or("").to_string();
+            rep.violation(Violation {
+                sig: format!("huge-capacity:{}:protocol", what.replace(' ', "_")),
+                detail: p,
+                replay: ReplayCase { n: 0, ctor: "new".into(), recipe: "0,0".into(), filling: "none".into(), act: "huge-iter".into(), fault: "none".into(), extra: String::new() },
+            });
+        }
+    }
     let sp = layout_space::<N>();
     // default-constructed iterators are empty
     {
